@@ -31,9 +31,13 @@ Definition obs_safe (r : result) (o : obs) : bool :=
         else is_error (oscanerr o))
   else is_error (oerr o).
 
+(* The scenarios kill at most two machines and replacements can always be
+   started, so losses stop: the run itself must then complete successfully by
+   recomputing what was lost (reads of the finished result during the scan may
+   still report an error for a machine that died under them). *)
 Definition ok (c : case) : bool :=
   let r := ref (cprog c) in
-  obs_safe r (cfirst c) && ok_rows_with r (cagain c).
+  errc_eqb (oerr (cfirst c)) EOk && obs_safe r (cfirst c) && ok_rows_with r (cagain c).
 
 Definition violations (cs : list case) : list nat := bad_indices ok cs.
 Definition mismatches (cs : list case) : list nat := violations cs.
